@@ -1,5 +1,6 @@
 import QcoVerif.Lemmas.ExportSrc
 import QcoVerif.Lemmas.Export
+import QcoVerif.Lemmas.ExportUnroll
 import QcoVerif.Generated.GateTables
 /-
   C08 — Stim export is the in-order image of the circuit.
@@ -390,5 +391,113 @@ theorem coordinate_shift_matches_source (time space : Int) :
   py_simp [CoordinateShift_to_stim, structEnv, instrVal]
 
 end SourceTie
+
+/-! ### unrolling: the multiset clause as a FULL theorem
+
+C06's nested-unrolling theorems (`TreeBelow`, `World.expand`, `applyModifiers_tree_driver`; Lemmas/TreeHeap … TreeDepth)
+discharge the three hypotheses of `export_multiset_unroll_partial`; the bridge between the exporter's count-expanded NODE
+listing (`World.expandedTop`, listing order, a count of 0 exports nothing) and C06's count-expanded SIGNATURES
+(`World.expand`, insertion order, a count of 0 is unrolled as one copy) is Lemmas/ExportUnroll.lean.  This supersedes the
+"Not proved" note about `applyModifiers` in the header of this file.
+
+The statement WITHOUT a hypothesis on the counts,
+    theorem export_multiset_unroll (w : World) (f c : Nat) (h : TreeBelow w f c) (hc : (w.op c).isComp = true) :
+      ((w.applyModifiers w.depthFuel c).stimExport c).Perm (w.stimExport c) ∧ measCount … = measCount …
+is FALSE of the model (and of the code: `inner * 0` exports nothing, `repeat(0)` makes `0 - 1` extra copies, i.e. keeps one):
+`export_multiset_unroll_count_zero_witness`.  The property's quantifier says counts ≥ 1; that is the hypothesis
+`ExportUnroll.CountsPos w f c` (every composite at or below `c` has a repetition count ≥ 1 under the current registry). -/
+
+open Qco.ExportUnroll
+
+/-- **The export after unrolling, for ANY counts (0 included).**  On a tree-shaped heap below the sub-circuit `c`, the
+    export after `apply_modifiers` is — as a multiset — the translation of C06's expansion of the heap before: every leaf
+    × the product of the enclosing `max 1 count`. -/
+theorem export_after_unroll_is_expansion (w : World) (f c : Nat) (h : TreeBelow w f c) (hc : (w.op c).isComp = true) :
+    ((w.applyModifiers w.depthFuel c).stimExport c).Perm ((w.expand f c).filterMap sigInstr) := by
+  obtain ⟨htop, hone, hp⟩ := unroll_export_hyps w f c h hc
+  rw [(export_refines_listing _ c htop hone).1, filterMap_translate_sig]
+  exact hp.filterMap _
+
+/-- **The export before unrolling**, when every count at or below `c` is ≥ 1: the translation of the same expansion. -/
+theorem export_before_unroll_is_expansion (w : World) (f c : Nat) (h : TreeBelow w f c)
+    (hc : (w.op c).isComp = true) (hpos : CountsPos w f c) :
+    (w.stimExport c).Perm ((w.expand f c).filterMap sigInstr) := by
+  rw [export_is_image, filterMap_translate_sig]
+  exact (expandedTop_expand w f c h hc hpos).filterMap _
+
+/-- **Multiset clause, full.**  For a sub-circuit `c` of a tree-shaped heap (what the API builds: `C06.fresh_circuit_is_tree`,
+    `add_leaf_keeps_tree`, `add_sub_circuit_keeps_tree`) all of whose counts at or below `c` are ≥ 1 — any nesting depth, any
+    counts, fixed or registry-provided, no fuel hypothesis — exporting after `apply_modifiers` (the driver's call) gives
+    the same multiset of instructions as exporting before, and the same number of measurement results. -/
+theorem export_multiset_unroll (w : World) (f c : Nat) (h : TreeBelow w f c) (hc : (w.op c).isComp = true)
+    (hpos : CountsPos w f c) :
+    ((w.applyModifiers w.depthFuel c).stimExport c).Perm (w.stimExport c) ∧
+    measCount ((w.applyModifiers w.depthFuel c).stimExport c) = measCount (w.stimExport c) := by
+  obtain ⟨htop, hone, _⟩ := unroll_export_hyps w f c h hc
+  exact export_multiset_unroll_partial w (w.applyModifiers w.depthFuel c) c htop hone
+    ((unroll_listing_keys w f c h hc).trans (expandedTop_keys w f c h hc hpos).symm)
+
+/-- the same per qubit: the number of measurement results recorded on qubit `q` (what the per-qubit acquisition index
+    counts) is the same before and after unrolling. -/
+theorem export_unroll_meas_per_qubit (w : World) (f c : Nat) (h : TreeBelow w f c) (hc : (w.op c).isComp = true)
+    (hpos : CountsPos w f c) (q : Int) :
+    measCountOn q ((w.applyModifiers w.depthFuel c).stimExport c) = measCountOn q (w.stimExport c) :=
+  measCountOn_perm q (export_multiset_unroll w f c h hc hpos).1
+
+/-- **A count of 0 breaks the clause** (so `CountsPos` cannot be dropped): `top{ blk(×0){ M q0 } }` is a tree, exports the
+    empty program (`inner * 0`), and after `apply_modifiers` — which makes `0 - 1 = 0` extra copies and sets the count
+    to 1 — exports `M 0`: one measurement instead of none. -/
+theorem export_multiset_unroll_count_zero_witness :
+    TreeBelow wZero 3 0 ∧ (wZero.op 0).isComp = true ∧ ¬ CountsPos wZero 3 0 ∧
+    wZero.stimExport 0 = [] ∧
+    ((wZero.applyModifiers wZero.depthFuel 0).stimExport 0).Perm [{ name := "M", targets := [.q 0] }] ∧
+    measCount (wZero.stimExport 0) = 0 ∧ measCount ((wZero.applyModifiers wZero.depthFuel 0).stimExport 0) = 1 := by
+  have ht : TreeBelow wZero 3 0 := by decide
+  have hc : (wZero.op 0).isComp = true := by decide
+  have hbefore : wZero.stimExport 0 = [] := by
+    have hl := listing_of_graphsSorted wZero (by decide)
+    have hf : wZero.depthFuel = 5 := rfl
+    simp only [World.stimExport, hf, World.stimBody, hl]
+    decide
+  have hafter : ((wZero.applyModifiers wZero.depthFuel 0).stimExport 0).Perm [{ name := "M", targets := [.q 0] }] := by
+    have p := export_after_unroll_is_expansion wZero 3 0 ht hc
+    have hx : (wZero.expand 3 0).filterMap sigInstr = [{ name := "M", targets := [.q 0] }] := by decide
+    rw [hx] at p
+    exact p
+  refine ⟨ht, hc, ?_, hbefore, hafter, by rw [hbefore]; rfl, by rw [measCount_perm hafter]; decide⟩
+  intro hp
+  have h1 : 1 ≤ wZero.repCount (wZero.op 1).rep := ((hp hc).2 1 (by decide) (by decide)).1
+  revert h1
+  decide
+
+/-! #### non-vacuity: the builder-made heap `exG` (Lemmas/TreeBuild.lean)
+
+`top{ mid(×2){ M q0 ; inner(×3){ X q0 } } }`, nesting depth 2 below `top`, built with `newCircuit / newOp / add / addSub`. -/
+
+/-- the hypotheses of `export_multiset_unroll`, `export_before/after_unroll_is_expansion`, `export_unroll_meas_per_qubit`
+    hold of it (tree: constructor lemmas of C06; counts ≥ 1: the builder only copies repetition strategies,
+    `ExportUnroll.exG_repsOk`). -/
+example : TreeBelow exG.1 4 exF.2 ∧ (exG.1.op exF.2).isComp = true ∧ CountsPos exG.1 4 exF.2 :=
+  ⟨exG_tree.1, exG_tree.2.2.1, exG_countsPos⟩
+
+/-- … and the resulting numbers: before and after unrolling the export consists of exactly 2 `M 0` and 6 `X 0`
+    (2 × (M, 3 × X)); 2 measurement results, both on qubit 0. -/
+theorem export_multiset_unroll_example :
+    ((exG.1.applyModifiers exG.1.depthFuel exF.2).stimExport exF.2).Perm
+      (repeatList 2 ({ name := "M", targets := [.q 0] } :: repeatList 3 [{ name := "X", targets := [.q 0] }])) ∧
+    (exG.1.stimExport exF.2).Perm
+      (repeatList 2 ({ name := "M", targets := [.q 0] } :: repeatList 3 [{ name := "X", targets := [.q 0] }])) ∧
+    measCount ((exG.1.applyModifiers exG.1.depthFuel exF.2).stimExport exF.2) = 2 ∧
+    measCount (exG.1.stimExport exF.2) = 2 ∧
+    measCountOn 0 ((exG.1.applyModifiers exG.1.depthFuel exF.2).stimExport exF.2) = 2 := by
+  have hx : ((exG.1.expand 4 exF.2).filterMap sigInstr).Perm
+      (repeatList 2 ({ name := "M", targets := [.q 0] } :: repeatList 3 [{ name := "X", targets := [.q 0] }])) :=
+    (exG_tree.2.2.2.filterMap sigInstr).trans (List.Perm.of_eq (by decide))
+  have pa := (export_after_unroll_is_expansion exG.1 4 exF.2 exG_tree.1 exG_tree.2.2.1).trans hx
+  have pb := (export_before_unroll_is_expansion exG.1 4 exF.2 exG_tree.1 exG_tree.2.2.1 exG_countsPos).trans hx
+  refine ⟨pa, pb, ?_, ?_, ?_⟩
+  · rw [measCount_perm pa]; decide
+  · rw [measCount_perm pb]; decide
+  · rw [measCountOn_perm 0 pa]; decide
 
 end Qco.C08
